@@ -452,6 +452,9 @@ class DatasetSpec:
                 got = "accept"
             except TypeError:
                 got = "reject"
+            except Exception:
+                # refused some other way: what the container holds afterwards is compared with the model below like after any refusal
+                got = "reject"
             if (fail_at is None) != (got == "accept"):
                 problems.append(("C20:ds-type-gate", {"pairs": pairs, "got": got}))
             upto = len(tagged) if fail_at is None else fail_at
@@ -541,7 +544,7 @@ def observe_dataset(ds, keys):
         "values": [describe_group(v) for v in ds.values()],
         "contains": [k in ds for k in keys],
         "get": [_g_or(ds.get(k, "DEFAULT")) for k in keys],
-        "names": [v.name for v in ds.values()],
+        "names": [getattr(v, "name", "<%s has no name>" % type(v).__name__) for v in ds.values()],
         "parents": [getattr(v, "parent", None) is ds for v in ds.values()],
         "meta": sorted(ds.meta.items()),
     }
@@ -803,7 +806,25 @@ def params_for(ctx_thorough):
     return {"keys": KEYS, "kinds": ["A3m", "A3s_i8", "V3_3", "A2m"]}
 
 
+def env_work(payload):
+    """The Datagroup and Dataset explorations to depth 3, inside another interpreter environment (python -O strips asserts and
+    `if __debug__:` blocks: what a container accepts and refuses must not depend on it)."""
+    from ..runner import SerialPool
+
+    pool = SerialPool()
+    _c1, a1 = history.explore(pool, MOD, "datagroup", params_for(False), 3, 1)
+    _c2, a2 = history.explore(pool, MOD, "dataset", {"keys": ["a", "b"]}, 3, 1)
+    return Acc.merged([a1, a2])
+
+
+def environment_replay(payload):
+    return replay_sigs(payload["case"])
+
+
 def run(ctx):
+    from ..runner import EnvironmentRuns
+
+    envruns = EnvironmentRuns(MOD, "env_work", ctx.base(), ("python-O", "PYTHONOPTIMIZE=2"))
     p = params_for(ctx.thorough)
     depth = 6 if ctx.thorough else 4
     und = 3 if ctx.thorough else 2
@@ -812,7 +833,7 @@ def run(ctx):
     cov2, acc2 = history.explore(ctx.pool, MOD, "dataset", pds, depth, und)
     acc3 = Acc.merged(ctx.pool.shards(MOD, "eq_work", ctx.base()))
     cov4, acc4 = history.explore(ctx.pool, MOD, "equality", {}, 5 if ctx.thorough else 4, 3)
-    acc = Acc.merged([acc1, acc2, acc3, acc4])
+    acc = Acc.merged([acc1, acc2, acc3, acc4] + envruns.results())
     cov = {
         "states": cov1["states"] + cov2["states"] + cov4["states"],
         "transitions": cov1["transitions"] + cov2["transitions"] + cov4["transitions"],
@@ -843,6 +864,10 @@ def run(ctx):
 
 
 def replay_sigs(case):
+    if case.get("environment"):
+        from ..runner import replay_in_environment
+
+        return replay_in_environment(MOD, case)
     if case.get("kind") == "eq":
         got = eq_eval(case["left"], case["right"])
         allowed = eq_expected(case["left"], case["right"])
